@@ -94,7 +94,7 @@ def judge(ctx, groups, impl):
 
 def run(ctx):
     g = G(ctx.seed)
-    groups = gen(g, 50 if ctx.tier == 'quick' else 800)
+    groups = gen(g, 250 if ctx.tier == 'quick' else 800)
     cases = [c for cw, parts, _, _ in groups for c in [cw] + parts]
     impl, model = run_apps(ctx, cases)
     judge(ctx, groups, impl)
